@@ -15,6 +15,8 @@ pub struct C04Lock;
 pub const SAMPLE_EVERY: u64 = 20;
 
 fn run_inside_shuttle(plan: &Plan, out: &mut RunOut) {
+    // every mutex operation is a scheduling point here: rendering costs several times more CPU
+    crate::engines::c04::DISPLAY_SECS_SCALE.store(6, std::sync::atomic::Ordering::Relaxed);
     let inner = Arc::new(StdMutex::new(Some(RunOut::new(false))));
     let inner2 = Arc::clone(&inner);
     let p = Arc::new(plan.clone());
@@ -79,7 +81,8 @@ impl Engine for C04Lock {
         16 << 20
     }
     fn hang_secs(&self) -> u64 {
-        60
+        // CPU seconds without a heartbeat (sup.rs); a re-entrant lock is reported by shuttle itself
+        120
     }
     fn run(&self, run: u64, seed: u64, tier: Tier, out: &mut RunOut) {
         if run % SAMPLE_EVERY != 0 {
